@@ -14,6 +14,8 @@ StrConf == [k \in Keys |-> k + 10]
 FullView == vars
 \* implementation state only (plus the two counters that bound and name the behaviours): used by the deeper
 \* configurations, which check only the invariants that do not read history variables
+NoKeyCost == [k \in Keys |-> 0]
+LastKeyCosts2 == [k \in Keys |-> IF \A j \in Keys : j <= k THEN 2 ELSE 1]   \* the largest key costs 2, all others 1
 ImplOnlyView == <<implVars, nextVal, ops>>
 
 (* Coverage goals: corner states the quick tier must always exercise on the real cache.  Each goal is
@@ -54,5 +56,6 @@ G_RefusedRewrite    == ~(\E c \in Clients : pc[c] = "set_send" /\ creg[c].t = "n
 G_TakeoverExpiredSlot == ~(apc = "new_set" /\ store[areg.item.h] # NULL /\ ~ConfOK(areg.item.conf, store[areg.item.h].conf)
                             /\ store[areg.item.h].exp # 0 /\ store[areg.item.h].exp < now)
 G_CollidingDel      == ~(apc = "del_store" /\ store[areg.item.h] # NULL /\ ~ConfOK(areg.item.conf, store[areg.item.h].conf))
+G_FillAfterRejVict  == ~(rejVict /\ apc = "new_set" /\ areg.victims = <<>> /\ used = maxCost)
 G_RaiseCost         == ~(raised /\ used > maxCost)
 =============================================================================
